@@ -416,8 +416,12 @@ impl<T: Engine> Block for FftFilterFloat<T> {
             for (i, samp) in outer_in.iter().take(n).enumerate() {
                 o[i] = Complex::new(*samp, 0.0);
             }
-            inner_to.produce(n, &tags);
-            outer_in.consume(n);
+            // Nothing to commit when the inner stream is full: passing the
+            // window's tags with zero samples trips produce()'s debug assert.
+            if n > 0 {
+                inner_to.produce(n, &tags);
+                outer_in.consume(n);
+            }
         }
 
         // Run Complex FftFilter.
@@ -434,8 +438,10 @@ impl<T: Engine> Block for FftFilterFloat<T> {
             for (i, samp) in inner_from.iter().take(n).enumerate() {
                 o[i] = samp.re;
             }
-            inner_from.consume(n);
-            outer_to.produce(n, &tags);
+            if n > 0 {
+                inner_from.consume(n);
+                outer_to.produce(n, &tags);
+            }
         }
 
         // Replace the inner stream wait with an outer stream wait.
